@@ -84,6 +84,31 @@ TRUSTED_BASE = [
 ]
 
 
+def harness_fault(exc: BaseException) -> bool:
+    """True when an exception caught while driving the implementation was raised by the HARNESS reaching for
+    something of the implementation that is not there (a renamed private helper / attribute / import): the frame
+    that raised is harness code under /verif and the exception is an AttributeError / ImportError / NameError.
+    Such an exception means the tie could not be established (broken correspondence), never that the property
+    ("… never raises") failed. Oracles that turn exceptions into failures call `reraise_harness_fault` first."""
+    if not isinstance(exc, (AttributeError, ImportError, NameError)):
+        return False
+    tb = exc.__traceback__
+    last = None
+    while tb is not None:
+        last = tb
+        tb = tb.tb_next
+    if last is None:
+        return False
+    fn = last.tb_frame.f_code.co_filename
+    return str(ROOT) in str(Path(fn).resolve()) if fn and not fn.startswith("<") else False
+
+
+def reraise_harness_fault(exc: BaseException) -> None:
+    if harness_fault(exc):
+        raise RuntimeError(f"harness could not reach the implementation ({type(exc).__name__}: {exc}) — "
+                           f"broken tie, not a property failure") from exc
+
+
 class Infra(Exception):
     """Infrastructure failure: exit 2, never a VIOLATION."""
 
